@@ -65,8 +65,15 @@ def decision_table(res, clause, cb, dom, func, who, forced_desc, is_forced, rate
                 bad.append((n, s, 'a draw is made although the recording is kept unconditionally'))
         elif outcome == 'compare':
             op, l, r = rv.name[1], rv.name[2], rv.name[3]
-            draw_left = isinstance(l, tuple) and l and l[0] in ('call',) or (isinstance(l, tuple) and 'random' in str(l))
-            draw_right = isinstance(r, tuple) and r and r[0] in ('call',) or (isinstance(r, tuple) and 'random' in str(r))
+            # the compared value is the draw itself (the result of the random() call site), not something computed from it
+            sites = {dom.site(c_) for c_ in ast.walk(func.node) if isinstance(c_, ast.Call) and isinstance(c_.func, ast.Attribute) and c_.func.attr == 'random'}
+            draw_left = isinstance(l, tuple) and len(l) == 3 and l[0] == 'call' and l[2] in sites
+            draw_right = isinstance(r, tuple) and len(r) == 3 and r[0] == 'call' and r[2] in sites
+            if not (draw_left or draw_right) and any(st_ in str(l) or st_ in str(r) for st_ in sites) or \
+                    (not (draw_left or draw_right) and draws == 1):
+                bad.append((n, s, 'the value compared with the rate is `%s`, not the draw itself: rounding / scaling the draw moves the boundary, so '
+                                  'recordings are kept with a probability other than the rate (a rate of 0 keeps some)' % (l if not isinstance(l, (int, float)) else r,)))
+                continue
             okdir = (draw_left and op in ('LtE', 'Lt')) or (draw_right and op in ('GtE', 'Gt'))
             if not okdir:
                 bad.append((n, s, 'comparison direction: kept iff `%s %s %s`, expected draw <= rate' % (l, op, r)))
@@ -203,6 +210,18 @@ def run(ctx):
             if not seeded:
                 ok = False
                 why = 'draw `%s` is not on a generator constructed from a seed in __init__' % norm(dcall)
+        # one generator per object for its whole life: the decisions are the successive draws of Random(seed); re-creating or re-seeding it
+        # anywhere else rewinds the sequence (every session would repeat the same first draws)
+        gfields = {_self_attr(d_.func.value) for d_ in draws if _self_attr(d_.func.value)}
+        for m_ in cls.methods.values():
+            if m_.name == '__init__':
+                continue
+            for n in ast.walk(m_.node):
+                rebinds = isinstance(n, ast.Assign) and any(_self_attr(t) in gfields for t in n.targets)
+                reseeds = isinstance(n, ast.Call) and isinstance(n.func, ast.Attribute) and n.func.attr in ('seed', 'setstate') and _self_attr(n.func.value) in gfields
+                if rebinds or reseeds:
+                    ok = False
+                    why = '%s %s the generator (`%s`)' % (m_.qualname, 're-creates' if rebinds else 're-seeds', norm(n)[:60])
         cb.instance('%s draws from the instance generator built from the seed' % func.qualname, func.qualname, ok, detail=why)
         cb.evaluations += len(draws)
         if not ok:
